@@ -227,6 +227,7 @@ pub struct Stats {
     pub post_returns: u64,
     pub host_blocks: u64,
     pub frees_checked: u64,
+    pub handle_drops: u64,
     pub nontrivial: BTreeSet<String>,
 }
 
@@ -372,6 +373,11 @@ impl Host {
         self.stats.import_calls += 1;
         let Some(&func) = self.import_func.get(&idx) else {
             let (m, n, _) = self.loaded.imports.get(idx).cloned().unwrap_or_default();
+            if n.starts_with("[resource-drop]") {
+                // handles of the universe world are plain numbers (ownership is the resource world's subject)
+                self.stats.handle_drops += 1;
+                return 0;
+            }
             self.problem("value:unexpected-import", format!("generated C called import {m} / {n}, which no function of the world needs"));
             return 0;
         };
@@ -392,7 +398,7 @@ impl Host {
         let sig = abi::flatten_functype(
             abi::CanonOpts { async_: false, callback: false },
             std::slice::from_ref(&et),
-            Some(&et),
+            plan.has_result().then_some(&et),
             Context::Lower,
             W,
         );
@@ -424,6 +430,9 @@ impl Host {
             },
         }
         // answer
+        if !plan.has_result() {
+            return 0;
+        }
         let ev2 = enc_val(&plan.ty, &v2, self.enc);
         let mut mem = HostMem::new(2);
         let mut r = 0u64;
@@ -481,7 +490,7 @@ impl Host {
         let sig = abi::flatten_functype(
             abi::CanonOpts { async_: false, callback: false },
             std::slice::from_ref(&et),
-            Some(&et),
+            plan.has_result().then_some(&et),
             Context::Lift,
             W,
         );
@@ -534,7 +543,9 @@ impl Host {
             self.problem("own:export-return:extra-free", format!("block {p:#x} was freed between the user's return and the wrapper's return"));
         }
         // lift the result
-        let lifted = if sig.result_indirect {
+        let lifted = if !plan.has_result() {
+            Ok(enc_val(&plan.ty, &v2, self.enc))
+        } else if sig.result_indirect {
             let p = ret[0];
             if p % abi::alignment(&et, W) != 0 {
                 Err(format!("result pointer {p:#x} is misaligned"))
@@ -633,8 +644,8 @@ fn check_tables(build: &ChunkBuild, loaded: &Loaded, enc: Enc) -> (BTreeMap<usiz
     let mut problems = Vec::new();
     let mut import_func = BTreeMap::new();
     for (k, (f, n)) in build.funcs.iter().zip(&build.names).enumerate() {
-        let want_i = sig_string(&expected_sig(std::slice::from_ref(&f.ty), Some(&f.ty), Context::Lower, enc));
-        let want_e = sig_string(&expected_sig(std::slice::from_ref(&f.ty), Some(&f.ty), Context::Lift, enc));
+        let want_i = sig_string(&expected_sig(std::slice::from_ref(&f.ty), f.result(), Context::Lower, enc));
+        let want_e = sig_string(&expected_sig(std::slice::from_ref(&f.ty), f.result(), Context::Lift, enc));
         match loaded.imports.iter().position(|(m, nm, _)| *m == n.import.0 && *nm == n.import.1) {
             None => problems.push(Problem {
                 func: k,
